@@ -313,22 +313,58 @@ func runC01(r *an.Run) {
 				{`^\$elem\(.*\)\.CounterParty\(\)$`, "+", []an.Fact{rmv0, notSettle}},
 				{`^\$elem\(.*\)$`, "-", []an.Fact{add0}},
 			}
+			// the closure body: acc (+|-) int64(entry.Amount)
+			closure := func(s an.Site) string {
+				c := s.Node.(*ast.CallExpr)
+				if fl, ok := c.Args[1].(*ast.FuncLit); ok && len(fl.Body.List) == 1 {
+					if rs, ok := fl.Body.List[0].(*ast.ReturnStmt); ok && len(rs.Results) == 1 {
+						if lf := f.LitFunc(fl); lf != nil {
+							return lf.Canon(rs.Results[0])
+						}
+					}
+				}
+				return ""
+			}
+			// The three roles (settle credit, fail credit, add debit) are told
+			// apart by what the site does -- which party it pays and with which
+			// sign -- not by the order in which the arms appear in the source:
+			// the arms of the credit switch are mutually exclusive, so their
+			// order carries no meaning. A site fills the role whose (party,
+			// sign) it has and must then satisfy that role's guards; when the
+			// three sites do not fill the three roles one to one the source
+			// order is kept, and the per-role checks below report the odd one.
+			roleOf := func(s an.Site) int {
+				counter := strings.Contains(f.ArgCanon(s)[0], "CounterParty")
+				minus := reMatch(`^\(\$lit\.p0 - `, closure(s))
+				switch {
+				case counter && !minus:
+					return 1
+				case !counter && minus:
+					return 2
+				case !counter && !minus:
+					return 0
+				}
+				return -1
+			}
+			byRole := make([]an.Site, 3)
+			filled := map[int]int{}
+			for _, s := range sites {
+				if k := roleOf(s); k >= 0 {
+					byRole[k] = s
+					filled[k]++
+				}
+			}
+			if filled[0] != 1 || filled[1] != 1 || filled[2] != 1 {
+				copy(byRole, sites)
+			}
+			sites = byRole
 			for i, s := range sites {
 				a := f.ArgCanon(s)
 				if !reMatch(want[i].party, a[0]) || strings.Count(a[0], "CounterParty") != strings.Count(want[i].party, "CounterParty") {
 					o.FailAt(f.ID+"#delta-party-"+itoa(i), s.Where(), "balance modification %d goes to %s, expected /%s/", i, a[0], want[i].party)
 				}
 				guardedAll(o, f, []an.Site{s}, want[i].guards...)
-				// the closure body: acc (+|-) int64(entry.Amount)
-				c := s.Node.(*ast.CallExpr)
-				body := ""
-				if fl, ok := c.Args[1].(*ast.FuncLit); ok && len(fl.Body.List) == 1 {
-					if rs, ok := fl.Body.List[0].(*ast.ReturnStmt); ok && len(rs.Results) == 1 {
-						if lf := f.LitFunc(fl); lf != nil {
-							body = lf.Canon(rs.Results[0])
-						}
-					}
-				}
+				body := closure(s)
 				ok := reMatch(`^\(\$lit\.p0 \`+want[i].sign+` int64\(\$elem\(.*\)\.Amount\)\)$`, body)
 				if !ok {
 					o.FailAt(f.ID+"#delta-amount-"+itoa(i), s.Where(), "balance modification %d computes %q, expected acc %s int64(entry.Amount)", i, body, want[i].sign)
